@@ -95,6 +95,16 @@ def parseLit (ts : List String) : Option Lit :=
   | ["c", x] => (unhex x).map Lit.str
   | _ => none
 
+/-- one element of a homogeneous container literal: kind `i` int, `s` hex string, `d` double `m:e` -/
+def parseLit1 (kind tok : String) : Option Lit :=
+  match kind with
+  | "i" => tok.toInt?.map Lit.int
+  | "s" => (unhex tok).map Lit.str
+  | "d" => match tok.splitOn ":" with
+    | [m, e] => (parseDy m e).map Lit.dbl
+    | _ => none
+  | _ => none
+
 def parsePathP (s : String) : Option Path := (parsePath s).map fun p => { root := p.1, steps := p.2 }
 
 def parseSlot (s : String) : Option Nat := do
@@ -120,6 +130,13 @@ def parseOp (ts : List String) : Option Op :=
   | ["drop", ks] => do pure (.drop (← parseSlot ks))
   | "ctor" :: ks :: "t" :: [tn] => do pure (.ctorType (← parseSlot ks) (← typeOfName tn))
   | "ctor" :: ks :: "kv" :: [key, qs] => do pure (.ctorKV (← parseSlot ks) (← unhex key) (← parsePathP qs))
+  | "ctor" :: ks :: "arr" :: kind :: vals => do pure (.ctorArr (← parseSlot ks) (← vals.mapM (parseLit1 kind)))
+  | "ctor" :: ks :: "list" :: kind :: vals => do pure (.ctorArr (← parseSlot ks) (← vals.mapM (parseLit1 kind)))
+  | "ctor" :: ks :: "dic" :: kind :: pairs => do
+      pure (.ctorDic (← parseSlot ks) (← pairs.mapM fun kv => match kv.splitOn "=" with
+        | [a, b] => do pure ((← unhex a), (← parseLit1 kind b))
+        | _ => none))
+  | "ctor" :: ks :: "varr" :: qs => do pure (.ctorVars (← parseSlot ks) (← qs.mapM parsePathP))
   | "ctor" :: ks :: lit => do pure (.ctorLit (← parseSlot ks) (← parseLit lit))
   | _ => none
 
